@@ -541,7 +541,7 @@ class C11(Prop):
     id = "C11"
     title = "Output validator: 'valid' implies the schema holds; clean JSON is taken verbatim"
     fixed_prefix = 1
-    quick_budget = 600
+    quick_budget = 500
     thorough_budget = 12000
     quick_deadline_s = 100
     thorough_deadline_s = 800
@@ -1253,7 +1253,7 @@ class C11(Prop):
         good, bad, prose = '{"a": 1}', "nope", 'so {"a": "2"} ok'
         for decay in ["0", "1/10", "1/2", "1", "2"]:
             for max_retries in [0, 1, 3, 12]:
-                for k in [0, 1, 2, 3, 11, 12, 13]:
+                for k in ([0, 1, 2, 3, 11, 12, 13] if tier != "quick" else [0, 1, 3, 11, 12]):
                     for final in ([good, prose] if tier != "quick" or k in (0, 3, 11) else [good]):
                         outs = ",".join(hexs(o) for o in [bad] * k + [final])
                         heal_cases.append({"lines": [f"schema {spec}", "new none", f"heal {max_retries} {decay} {outs}", "stats"],
